@@ -343,6 +343,37 @@ def r7_rotation_number(idx, r):
     r.require(got == Rat(Poly.const(60) * Poly.atom(p), Poly.const(1)), "setRotationNum:60k", st_, node=sto[0].stmt, msg=f"setRotationNum must store 60 x {p} degrees; it stores {got}")
 
 
+def r8_sixty_degree_guard(idx, r):
+    """HexAssembly.rotate accepts multiples of 60 degrees. With floats, `rad % step` of an exact multiple is either just
+    above 0 or just BELOW step (e.g. -pi, 5*(pi/3)); a test that only compares the remainder with 0 refuses those
+    multiples. The guard must treat both ends (remainder near 0 or near the step), or round the quotient."""
+    f = idx.method("armi.reactor.assemblies.HexAssembly", "rotate")
+    if f is None:
+        raise AnchorMissing("HexAssembly.rotate")
+    env = single_assign_env(f.node)
+    guards = []
+    for n in walk_local(f.node):
+        if isinstance(n, ast.If):
+            from types import SimpleNamespace
+            guards.append(SimpleNamespace(test=propagate(n.test, env), node=n))
+    mods = [x for g in guards for x in ast.walk(g.test) if isinstance(x, ast.BinOp) and isinstance(x.op, ast.Mod)]
+    if not mods:
+        rq = any(isinstance(x, ast.Call) and dotted(x.func) in ("round", "np.rint", "np.round") for g in guards for x in ast.walk(g.test))
+        if rq:
+            r.ok("guard:two-sided", f, msg="quotient rounded")
+            return
+        raise AnalysisError("HexAssembly.rotate: no modulo / rounding test of the angle found")
+    g = next(g for g in guards if any(x in list(ast.walk(g.test)) for x in mods))
+    step = norm(mods[0].right)
+    closes = [c for c in ast.walk(g.test) if isinstance(c, ast.Call) and dotted(c.func) in ("math.isclose", "np.isclose", "isclose")]
+    zero_side = any(len(c.args) >= 2 and isinstance(c.args[1], ast.Constant) and c.args[1].value in (0, 0.0) for c in closes)
+    other_side = any(len(c.args) >= 2 and norm(c.args[1]) == step for c in closes) or any(isinstance(x, ast.BinOp) and isinstance(x.op, ast.Sub) and norm(x.left) == step for x in ast.walk(g.test)) \
+        or any(isinstance(x, ast.Call) and dotted(x.func) == "min" for x in ast.walk(g.test))
+    r.require(not zero_side or other_side, "guard:two-sided", f, node=g.node.test,
+              msg=f"`{norm(g.test)[:80]}` accepts a rotation only when the floating remainder is near 0; for many exact multiples of the step (-pi, 5*(pi/3), radians(-300)) "
+                  f"the remainder is just below `{step}` instead, and the rotation is refused")
+
+
 def run(idx, chk):
     chk.explanation = (
         "C08: the two third-core images and the six index rotations are extracted as integer matrices and shown to equal exact 120/60k degree "
@@ -362,3 +393,5 @@ def run(idx, chk):
     chk.run_rule("R08.6", "isInFirstThird: top-edge adjustment only for odd rings when requested; lower bound adjusted for even rings", lambda r: r6_first_third(idx, r), floor=4, necessary="each orbit has exactly one member in the modelled domain")
     chk.run_rule("R08.7", "the rotation number read from the orientation is rint(angle/60) reduced modulo 6; setRotationNum stores 60 k", lambda r: r7_rotation_number(idx, r), floor=3,
                  necessary="rotation by k steps 'composes additively, is the identity at k=6'; orientation moves accordingly")
+    chk.run_rule("R08.8", "the 60-degree-increment guard of assembly rotation accepts a floating remainder at either end of the interval", lambda r: r8_sixty_degree_guard(idx, r), floor=1,
+                 necessary="rotation by k steps for every integer k (also negative, also k >= 6)")
